@@ -311,8 +311,8 @@ BLOCKS = [
 # blocks whose words of length 6 are enumerated in the quick tier (length 5 for the others)
 QUICK6 = ('f4', 'new', 'rem-ap')
 
-# thorough: blocks of which only the first command gets the length-9 words over {c, undo, redo}
-NINE_FIRST_ONLY = ('f4-roi', 'newmode', 'replace', 'two', 'empty-edit', 'add-ap', 'rem-empty', 'data', 'data2')
+# thorough: blocks whose first command gets the length-9 words over {c, undo, redo}
+NINE = ('f4', 'f4-data', 'f4-rem', 'f4-roi', 'new', 'and-xor', 'two', 'rem-empty')
 
 RANDOM_SETUPS = [
     [], [['app', 0]], [['app', 0], ['app', 1]], [['app', 0], ['app', 1], ['app', 2]],
@@ -487,14 +487,16 @@ class Word(Family):
             if tier == "quick":
                 L = 6 if name in QUICK6 else 5
             else:
-                L = (8 if name in QUICK6 else 7) if len(cmds) == 2 else 6
+                L = (8 if name == 'f4' else 7) if len(cmds) == 2 else 6
             for w in words(alphabet, L):
                 yield [ND, setup, w]
         if tier != "quick":
             # length 9 over one command + undo + redo, every command letter of the blocks
             seen = set()
             for _name, setup, cmds in BLOCKS:
-                for c in cmds[:1] if _name in NINE_FIRST_ONLY else cmds:
+                if _name not in NINE:
+                    continue
+                for c in cmds[:1]:
                     key = sx([setup, c])
                     if key in seen:
                         continue
@@ -513,7 +515,7 @@ class WordRandom(Word):
     budget_share = 1.0
 
     def cases(self, tier, rng):
-        n_short, n_long = (2000, 120) if tier == "quick" else (60000, 4000)
+        n_short, n_long = (2000, 120) if tier == "quick" else (30000, 2000)
         for i in range(n_short):
             setup = rng.choice(RANDOM_SETUPS)
             yield [ND, setup, random_word(rng, rng.randint(7, 16), setup, clean_only=(i % 4 != 0))]
@@ -587,6 +589,6 @@ PROP = Property(
     assumptions=["every subset belongs to a subset group (clients create subsets only through new_subset_group)",
                  "between the first command and the end of the history the session is changed only through the command stack (the edit subset, the edit mode and the groups existing before the history are arbitrary)",
                  "data links are outside the observation (LinkManager drops the links of a removed dataset and RemoveData.undo does not restore them; the harness uses shared component ids instead of links)"],
-    rule="exhaustive: every word of exactly L letters over {c1, c2, undo, redo} (quick: L = 6 for 3 blocks, 5 for 11; thorough: 8 for 3 blocks, 7 for 11) or {c1, c2, c3, undo, redo} (L = 5 / 6) for 16 blocks (set-up, commands) covering group-creating ApplySubsetState / ApplyROI, NewMode as override and as current mode, And/Or/Xor/AndNot/Replace on one- and two-group edit subsets, an empty edit subset next to existing groups, AddData / RemoveData interleaved with selections; thorough also every word of length 9 over {c, undo, redo} for 23 (set-up, command) pairs; all prefixes are checked through the per-letter observations. random: seeded words of length 7-45 over all commands from 10 set-ups (3 of 4 avoid the known-finding constructs). bound: MAX_UNDO+10 commands, MAX_UNDO+2 undos, redos. non-trivial = an undo after a do",
+    rule="exhaustive: every word of exactly L letters over {c1, c2, undo, redo} (quick: L = 6 for 3 blocks, 5 for 11; thorough: 8 for 1 block, 7 for 13) or {c1, c2, c3, undo, redo} (L = 5 / 6) for 16 blocks (set-up, commands) covering group-creating ApplySubsetState / ApplyROI, NewMode as override and as current mode, And/Or/Xor/AndNot/Replace on one- and two-group edit subsets, an empty edit subset next to existing groups, AddData / RemoveData interleaved with selections; thorough also every word of length 9 over {c, undo, redo} for 8 (set-up, command) pairs; all prefixes are checked through the per-letter observations. random: seeded words of length 7-45 over all commands from 10 set-ups (3 of 4 avoid the known-finding constructs). bound: MAX_UNDO+10 commands, MAX_UNDO+2 undos, redos. non-trivial = an undo after a do",
     partial_note="zipper_refinement_partial holds for histories whose AddData commands add an absent dataset and whose RemoveData commands remove the last dataset of the collection (p=T); outside, the code as it is violates the property (three known findings, decide'd witnesses) and the model reproduces that behaviour (comparison (a) still checked).",
 )
